@@ -1,5 +1,6 @@
 """C08 — the UCI position command sets up exactly the described game, or nothing."""
 import json
+import os
 import random
 import common as C
 import boardcorr as B
@@ -50,6 +51,14 @@ def run(ctx):
         fen, _, ms = line.partition("|")
         if ms.strip() != "PANIC":
             games.append((fen.strip(), ms.split()))
+    # the committed regression games (repetitions, all special moves, a king capturing a home rook and walking away, ...)
+    reg = []
+    for line in open(os.path.join(C.VERIF, "corpus", "games.txt")):
+        line = line.strip()
+        if line and not line.startswith("#"):
+            f, _, m = line.partition("|")
+            reg.append((f.strip(), m.split()))
+    games = reg + games
     sessions = []
     for gi, (fen, ms) in enumerate(games):
         use_startpos = (fen == START and rng.random() < 0.7)
@@ -58,7 +67,7 @@ def run(ctx):
             head = "position startpos" if (f == START and use_startpos) else "position fen " + f
             return head + (" moves " + " ".join(moves) if moves else "")
         lines = []
-        kind = gi % 6
+        kind = gi % 6 if gi >= len(reg) else 0
         k = max(1, len(ms) // 2)
         if kind == 0:
             lines = [poscmd(fen, ms)]
@@ -122,6 +131,7 @@ def run(ctx):
         cov["sessions"] = len(sessions)
     # ---- every coordinate string: accepted exactly when it is the notation of a legal move ----
     acc_fens = (P.corpus() + P.bench_fens())[:40 if ctx["tier"] == "quick" else 200]
+    acc_fens = acc_fens + [f for f, _ in reg]
     sq = [f + r for r in "12345678" for f in "abcdefgh"]
     strings = [a + b for a in sq for b in sq] + [a + b + x for a in sq if a[1] in "27" for b in sq if b[1] in "18" and abs(ord(a[0]) - ord(b[0])) <= 1 for x in "qrbnk"]
     rc, so, se = C.driver(["accepts"], "".join("%s | %s\n" % (f, " ".join(strings)) for f in acc_fens), timeout=900)
@@ -150,7 +160,8 @@ def run(ctx):
     cov["rule"] = ("legal games chosen by the engine's generator from the start position, corpus and bench positions, given as "
                    "`position startpos|fen ... moves ...`; single-move corruptions (reversed, suffix added/dropped, random squares, "
                    "upper case, bad suffix, null move); sessions mixing accepted and refused commands and ucinewgame; the engine's "
-                   "final session position (guarded verifdump command, full state) vs the Coq model of the command loop")
+                   "final session position (guarded verifdump command, full state) vs the Coq model of the command loop; the committed regression "
+                   "games (repetitions, every special move, a king capturing a home-corner rook and walking away) are played as sessions too")
     cov["samples"].append({"session": sessions[1] if len(sessions) > 1 else None})
     return SP.finish(prop, gate, violations, cov)
 
